@@ -70,7 +70,9 @@ def run(chk):
     miter_template_rule(chk, repo, "C04.S.template")
     P = Package(repo)
     fi = repo.func(FILE, "miter")
-    bases = list(two_level_circuits(limit=40 if chk.tier == "quick" else None)) + list(deep_circuits())
+    from ..corpus import corpus
+
+    bases = list(two_level_circuits(limit=40 if chk.tier == "quick" else None)) + list(deep_circuits()) + [(f"corpus::{k}", c) for k, tags, c in corpus(chk.tier, exclude=("x",))]
     n = 0
     for kname, c in bases:
         variants = [("same", c.copy())]
@@ -87,6 +89,8 @@ def run(chk):
             r = P.call(FILE, "miter", c, c1)
             n += 1
             key = f"miter::{kname}::{vname}"
+            if r[0] == "raise" and r[1] == "ValueError" and "::name::" in kname:
+                continue  # clash with sat / dif_* / c0_* style names: rejected loudly
             if r[0] != "return" or not isinstance(r[1], RefCircuit):
                 chk.ob("C04.F.sat-iff-differ", key, False, file=FILE, func="miter", line=fi.node.lineno, fact={"result": str(r)[:200]})
                 continue
